@@ -116,7 +116,10 @@ def make_field(cc, node, built, path):
         if item["kind"] == "field":
             return cc.ListField(make_field(cc, item, built, path + "[]"), **kw)
         if item["kind"] == "schema":
-            sub = cc.Schema(dynamic=item.get("dynamic", False))
+            ikw = {}
+            if "env" in item:
+                ikw["env"] = item["env"]
+            sub = cc.Schema(dynamic=item.get("dynamic", False), **ikw)
             _fill(cc, sub, item, built, path + "[]")
             return cc.ListField(sub, **kw)
         return cc.ListField(_make_type(cc, item, built, path + "[]"), **kw)
@@ -170,7 +173,10 @@ def _make_type(cc, node, built, path):
     key = (name, id(node))
     if key in built.types:
         return built.types[key]
-    sub = cc.Schema(dynamic=node["schema"].get("dynamic", False))
+    kw = {}
+    if "env" in node["schema"]:
+        kw["env"] = node["schema"]["env"]
+    sub = cc.Schema(dynamic=node["schema"].get("dynamic", False), **kw)
     _fill(cc, sub, node["schema"], built, path)
     cls = cc.make_type(sub, name, module="vf_types", key_filename=node.get("key_filename"))
     built.types[key] = cls
@@ -207,28 +213,88 @@ def _make_method(node, built, path):
     return fn
 
 
-def _fill(cc, schema, node, built, prefix):
+def _fill(cc, schema, node, built, prefix, via=""):
     """Add the children of a schema node top-down (parents are attached before their children, as
-    the environment-variable naming requires)."""
+    the environment-variable naming requires).  A sub-schema node without settings of its own may
+    carry a build "style": 'auto' (created by attribute access), 'getitem' (created by
+    schema[key]) or 'dotted' (never named: its children are added as holder['a.b.c'] = field and
+    the intermediate schemas are created on the way).  `via` is the dotted prefix below `schema`
+    in the last style."""
+
+    def put(key, value):
+        if via:
+            schema[via + "." + key] = value
+        else:
+            setattr(schema, key, value)
+
+    def here():
+        return schema[via] if via else schema
+
     for ch in node["fields"]:
         key = ch["key"]
         path = (prefix + "." if prefix else "") + key
         if ch["kind"] == "schema":
-            kw = {}
-            if "env" in ch:
-                kw["env"] = ch["env"]
-            sub = cc.Schema(dynamic=ch.get("dynamic", False), **kw)
-            setattr(schema, key, sub)
+            style = ch.get("style")
+            if style and style != "mounted" and ("env" in ch or ch.get("dynamic") or not ch["fields"]):
+                style = None
+            if style == "mounted" and "env" in ch:
+                style = None
+            if style == "dotted" and all(c["kind"] == "schema" or (c["kind"] == "field" and c["family"] != "method")
+                                         for c in ch["fields"]) and not ch.get("validators"):
+                _fill(cc, schema, ch, built, path, (via + "." if via else "") + key)
+                continue
+            if style == "mounted":
+                # built and used on its own first (field paths listed, a configuration created), mounted afterwards
+                sub = cc.Schema(dynamic=ch.get("dynamic", False))
+                _fill(cc, sub, ch, built, path)
+                _use_standalone(cc, sub)
+                put(key, sub)
+                continue
+            if style == "auto":
+                sub = getattr(here(), key)
+            elif style in ("getitem", "dotted"):
+                sub = schema[(via + "." if via else "") + key]
+            else:
+                kw = {}
+                if "env" in ch:
+                    kw["env"] = ch["env"]
+                sub = cc.Schema(dynamic=ch.get("dynamic", False), **kw)
+                put(key, sub)
             _fill(cc, sub, ch, built, path)
         elif ch["kind"] == "ctype":
-            setattr(schema, key, _make_type(cc, ch, built, path))
+            put(key, _make_type(cc, ch, built, path))
         elif ch["family"] == "method":
             fn = _make_method(ch, built, path)
-            cc.instance_method(schema, key)(fn)
+            cc.instance_method(here(), key)(fn)
         else:
-            setattr(schema, key, make_field(cc, ch, built, path))
+            put(key, make_field(cc, ch, built, path))
     for vspec in node.get("validators", ()):
-        cc.validator(schema)(_schema_validator(built, prefix, vspec))
+        cc.validator(here())(_schema_validator(built, prefix, vspec))
+
+
+def _use_standalone(cc, schema):
+    """What an application does with a reusable schema fragment before mounting it: list the paths of its
+    fields, create a configuration from it and validate that (errors do not matter here)."""
+    try:
+        for entry in list(cc.get_all_fields(schema)):
+            field = entry[-1]
+            cc.item_ref_path(field)
+            if isinstance(field, cc.Schema):
+                continue  # attribute access on a schema creates sub-schemas
+            for inner in ("field", "key_field", "value_field"):
+                f = getattr(field, inner, None)
+                if f is not None and hasattr(f, "_key"):
+                    try:
+                        cc.item_ref_path(f)
+                    except Exception:
+                        pass
+    except Exception:
+        pass
+    try:
+        cfg = schema()
+        cfg.validate(collect_errors=True)
+    except Exception:
+        pass
 
 
 def build(cc, spec):
